@@ -11,7 +11,7 @@
    the key usable when a member joins or the threshold is lowered. *)
 From Coq Require Import ZArith List Bool Permutation.
 From mathcomp Require Import all_ssreflect all_algebra.
-From SygmaV Require Import Model.C08 Proofs.C08 Proofs.C08_Lagrange Proofs.C08_Bridge Proofs.C08_Btc.
+From SygmaV Require Import Model.C08 Proofs.C08 Proofs.C08_Lagrange Proofs.C08_Bridge Proofs.C08_Btc Proofs.C08_Coord.
 Import GRing.Theory.
 Delimit Scope Z_scope with Z.
 Local Open Scope ring_scope.
@@ -328,6 +328,64 @@ Theorem C08_btc_counting_results_refuted :
 Proof. exact counting_sends_unsigned_input. Qed.
 Print Assumptions C08_btc_counting_results_refuted.
 
+(* ---- (E) who may coordinate a session ------------------------------------------------------------ *)
+
+(* the judge of the candidates a real process names accepts the model's, for every process kind, stored
+   key share and peerstore *)
+Theorem C08_candidates_ok_model : forall (k : proc_kind) (key_peers store : list Z),
+  candidates_ok k key_peers store (coordinator_candidates k key_peers store) = true.
+Proof. exact candidates_ok_model. Qed.
+Print Assumptions C08_candidates_ok_model.
+
+(* and means: every candidate can coordinate the session (keygen: a relayer of the peerstore; signing: a
+   key holder; resharing: a holder of the old key that is in the peerstore), and there is a candidate
+   whenever such a relayer exists *)
+Theorem C08_candidates_ok_sound : forall (k : proc_kind) (key_peers store impl : list Z),
+  candidates_ok k key_peers store impl = true ->
+  (forall c, List.In c impl ->
+     match k with
+     | PKeygen => List.In c store
+     | PSigning => List.In c key_peers
+     | PResharing => List.In c key_peers /\ List.In c store
+     end)
+  /\ ((match k with
+       | PKeygen => exists p, List.In p store
+       | PSigning => exists p, List.In p key_peers
+       | PResharing => exists p, List.In p key_peers /\ List.In p store
+       end) -> impl <> nil).
+Proof. exact candidates_ok_sound. Qed.
+Print Assumptions C08_candidates_ok_sound.
+
+(* for EVERY session id (rank): whoever the static election takes among candidates the judge accepts
+   holds a share of the old key and takes part in the refresh, and somebody is elected whenever such a
+   relayer exists - the refresh does not depend on which relayer sorts first *)
+Theorem C08_refresh_coordinator_ok : forall (rank : Z -> Z) (key_peers store impl : list Z),
+  candidates_ok PResharing key_peers store impl = true ->
+  (forall c, elect rank impl = Some c -> List.In c key_peers /\ List.In c store)
+  /\ ((exists p, List.In p key_peers /\ List.In p store) -> exists c, elect rank impl = Some c).
+Proof. exact refresh_coordinator_ok. Qed.
+Print Assumptions C08_refresh_coordinator_ok.
+
+(* REFUTED for the FROST resharing as it was (every peer of the stored key share is a candidate): a
+   relayer that LEAVES with the refresh is elected for the session ids for which it sorts first and is
+   not in the peerstore - reproduced on the real code (open finding
+   C08-frost-refresh-exmember-coordinator, repaired in /repo by 2f3fd0e) *)
+Theorem C08_old_frost_resharing_candidates_refuted :
+  exists (rank : Z -> Z) (key_peers store : list Z) (c : Z),
+    candidates_ok PResharing key_peers store (old_frost_resharing_candidates key_peers store) = false
+    /\ elect rank (old_frost_resharing_candidates key_peers store) = Some c /\ ~ List.In c store.
+Proof. exact old_frost_resharing_candidates_refuted. Qed.
+Print Assumptions C08_old_frost_resharing_candidates_refuted.
+
+(* naming every relayer of the peerstore for a refresh (what a key generation does) lets a relayer that
+   is only joining - no share of the old key - be elected *)
+Theorem C08_peerstore_resharing_candidates_refuted :
+  exists (rank : Z -> Z) (key_peers store : list Z) (c : Z),
+    candidates_ok PResharing key_peers store store = false
+    /\ elect rank store = Some c /\ ~ List.In c key_peers.
+Proof. exact peerstore_resharing_candidates_refuted. Qed.
+Print Assumptions C08_peerstore_resharing_candidates_refuted.
+
 (* Non-vacuity: over Z mod 7 a degree-1 sharing of the secret 3 among the nodes 1,2,3: every pair
    and the triple reconstruct 3, the judge accepts; 7 is prime; the refresh/reshare hypotheses are
    satisfiable (g = 2X has g(0) = 0); a well-formed sort_parties / validate instance. *)
@@ -343,5 +401,8 @@ Example C08_nonvacuous :
   List.forallb (ideal_wf 7 3) (IStage (3 :: 1 :: nil)%Z (1 :: 2 :: 3 :: nil)%Z 1 :: ISign false 2 1
                                :: IStage (3 :: 4 :: 2 :: nil)%Z (2 :: 3 :: 4 :: 5 :: nil)%Z 2 :: ISign true 3 0 :: nil) = true /\
   result_channel true 5%Z 0 3 = (Some 5%Z :: nil)%list /\ result_channel false 5%Z 2 1 = (None :: nil)%list /\
+  coordinator_candidates PResharing (3 :: 9 :: 5 :: nil)%Z (5 :: 3 :: 7 :: nil)%Z = (3 :: 5 :: nil)%Z /\
+  candidates_ok PResharing (3 :: 9 :: 5 :: nil)%Z (5 :: 3 :: 7 :: nil)%Z (5 :: 3 :: nil)%Z = true /\
+  elect (fun z => (- z)%Z) (3 :: 5 :: nil)%Z = Some 5%Z /\
   derive_in_run_share 7 false 3 2 1 <> frost_attempt_share 7 false 3 2 1.
 Proof. by vm_compute. Qed.
